@@ -27,6 +27,20 @@ TARGETS = [
         ("SimpleValidator", "validate_delay", "C05", "C05_gen_validate_delay"),
         ("SimpleValidator", "validate_expiry", "C05", "C05_gen_validate_expiry"),
         ("SimpleValidator", "validate_fee", "C05", "C05_gen_validate_fee"),
+        ("SimpleValidator", "validate_beneficial_value", "C08", "C08_gen_validate_beneficial_value"),
+        ("SimpleValidator", "outside_epsilon_range", "C07", "C07_gen_outside_epsilon_range"),
+    ]),
+    dict(area="EnforceVal", rel="vls-core/src/policy/validator.rs", consts=[], externals={},
+         structs=["vls-core/src/tx/tx.rs"], fns=[
+        ("EnforcementState", "minimum_to_holder_value", "C07", "C07_gen_minimum_to_holder_value"),
+        ("EnforcementState", "minimum_to_counterparty_value", "C07", "C07_gen_minimum_to_counterparty_value"),
+        ("", "min_opt", "C06", None, "snippet"),
+    ]),
+    dict(area="Kvv", rel="vls-persist/src/kvv/memory.rs", consts=[], externals={}, fns=[
+        ("MemoryKVVStore", "put_with_version", "C16", "C16_gen_put_with_version"),
+        ("MemoryKVVStore", "get_version", "C16", "C16_gen_get_version"),
+        ("MemoryKVVStore", "put", "C16", "C16_gen_put"),
+        ("MemoryKVVStore", "get", "C16", "C16_gen_get"),
     ]),
     dict(area="TxUtil", rel="vls-core/src/util/transaction_utils.rs", consts=[], externals={}, fns=[
         ("", "expected_commitment_tx_weight", "C05", "C05_gen_commitment_weight", "snippet"),
@@ -68,6 +82,7 @@ class Codec:
         if t[0] == "opaque": return "Nat"
         if t[0] == "opt": return "(Option %s)" % self.lean_ty(t[1])
         if t[0] == "vec": return "(List %s)" % self.lean_ty(t[1])
+        if t[0] == "map": return "(List (String × %s))" % self.lean_ty(t[2])
         if t[0] == "tuple": return "(" + " × ".join(self.lean_ty(x) for x in t[1]) + ")"
         return u.lt(t, False)
 
@@ -113,6 +128,7 @@ class Codec:
         if k == "opaque": return "decNat"
         if k == "opt": return "(decOpt %s)" % self.dec(t[1])
         if k == "vec": return "(decList %s)" % self.dec(t[1])
+        if k == "map": return "(decList (decPair decStr %s))" % self.dec(t[2])
         if k == "tuple":
             ds = [self.dec(x) for x in t[1]]
             r = ds[-1]
@@ -130,6 +146,7 @@ class Codec:
         if k == "opaque": return "toString"
         if k == "opt": return "(encOpt %s)" % self.enc(t[1])
         if k == "vec": return "(encList %s)" % self.enc(t[1])
+        if k == "map": return "(encList (encPair id %s))" % self.enc(t[2])
         if k == "tuple":
             es = [self.enc(x) for x in t[1]]
             r = es[-1]
@@ -172,7 +189,7 @@ def extract(repo):
     snippets = []
     for tg in TARGETS:
         try:
-            u = Unit(repo, tg["rel"], "VlsModel.Gen.Fn" + tg["area"], tg.get("consts", ()), tg.get("externals", {}))
+            u = Unit(repo, tg["rel"], "VlsModel.Gen.Fn" + tg["area"], tg.get("consts", ()), tg.get("externals", {}), tg.get("structs", ()))
         except (RsError, OSError) as e:
             raise ExtractError("x_fn: cannot index %s: %s" % (tg["rel"], e))
         for tup in tg["fns"]:
